@@ -9,7 +9,8 @@ META = dict(
                 'widths; oracle P_out = min(target*offset, P_in/maxloss) in linear units; plus single-policy enforcement and '
                 'per-degree target population harnesses',
     bounds=['channels k<=3 (quick) / 4 (thorough)', 'baud/slot per channel fixed to (32/50, 64/75, 42/50, 32/37.5 GHz)',
-            'floats as reals'],
+            'floats as reals', 'internal paths: one ROADM with two ingress and two egress degrees and a transceiver, 6 impairment profiles '
+            '(two per path type), the non-default one selected on one of 6 crossings or none'],
     assumptions=['floats modelled as reals', 'targets, offsets and powers positive in linear units (any dB value)',
                  'roadm-maxloss >= 0 dB'],
     stubs=[],
